@@ -973,6 +973,7 @@ def eager_cat_homogeneous(name, part_name, *parts):
         shape = tuple(d.size for d in inputs.values()) + output.shape
         tensors.append(ops.expand(align_tensor(inputs, part), shape))
     del inputs[part_name]
+    assert name not in inputs
 
     dim = 0
     tensor = ops.cat(tensors, dim)
